@@ -159,3 +159,64 @@ def images27_lemma(matrix):
         if r != z3.unsat:
             return False, qs
     return True, qs
+
+
+def rat_inverse(M):
+    """Exact inverse of a 3x3 matrix of Fractions."""
+    from fractions import Fraction
+    a = [[Fraction(v) for v in row] for row in M]
+    det = (a[0][0] * (a[1][1] * a[2][2] - a[1][2] * a[2][1]) - a[0][1] * (a[1][0] * a[2][2] - a[1][2] * a[2][0])
+           + a[0][2] * (a[1][0] * a[2][1] - a[1][1] * a[2][0]))
+    cof = [[(a[(i + 1) % 3][(j + 1) % 3] * a[(i + 2) % 3][(j + 2) % 3] - a[(i + 1) % 3][(j + 2) % 3] * a[(i + 2) % 3][(j + 1) % 3])
+            for j in range(3)] for i in range(3)]
+    return [[cof[j][i] / det for j in range(3)] for i in range(3)]
+
+
+class KDTreeContract:
+    """MDAnalysis.lib.pkdtree.PeriodicKDTree by its documented behaviour.
+
+    The periodic cell is B = triclinic_vectors(box) (MDAnalysis frame: a along x, b in the xy-plane; box cast to float32
+    as the library does).  set_coords / search_tree wrap tree points and query centres into the primary cell of B
+    (apply_PBC), and the result is the set of (centre, point) pairs whose minimum-image distance *in that cell* is
+    <= radius.  Coordinates are read as exact reals (their float32 cast inside the library is below the tolerance band).
+    """
+
+    created = []
+
+    def __init__(self, box, leafsize=10):
+        from MDAnalysis.lib.mdamath import triclinic_vectors
+        from pymatgen.core import Lattice
+        self.box = np.asarray(box, dtype=np.float32)
+        B = np.asarray(triclinic_vectors(self.box), dtype=float)
+        self.B = B
+        self.LP = LatticeProxy(Lattice(B))
+        self.Binv = rat_inverse(np.asarray(self.LP.Mr).tolist())
+        self.coords = None
+        self.cutoff = None
+        KDTreeContract.created.append(self)
+
+    def _frac(self, x):
+        return [core.ssum([x[k] * self.Binv[k][c] for k in range(3)]) for c in range(3)]
+
+    def set_coords(self, coords, cutoff=None):
+        if cutoff is None:
+            raise RuntimeError('Provide a cutoff distance with tree.set_coords(...)')
+        self.coords = np.asarray(S(coords))
+        self.cutoff = cutoff
+
+    def search_tree(self, centers, radius):
+        if self.coords is None:
+            raise RuntimeError('Unbuilt tree. Run tree.set_coords(...)')
+        if bool(self.cutoff < radius):
+            raise RuntimeError('Set cutoff greater or equal to the radius.')
+        centers = np.atleast_2d(np.asarray(S(centers)))
+        pairs = []
+        r2 = radius * radius
+        for i in range(len(centers)):
+            uc = self._frac(centers[i])
+            for j in range(len(self.coords)):
+                ux = self._frac(self.coords[j])
+                q = self.LP.dist2_generic(uc, ux)
+                if bool(q <= r2):
+                    pairs.append([i, j])
+        return np.array(pairs, dtype=np.intp).reshape(-1, 2)
